@@ -79,7 +79,7 @@ func vh_C10_L3_cwnd_laws() {
 	a.cwnd = cwnd
 	a.ssthresh = nondetU32()
 	a.minCwnd = []uint32{0, mtu / 2, 2 * mtu}[vPick(3)] // any configured floor, also one below the MTU
-	vassume(cwnd >= a.minCwnd) // setCWND never leaves cwnd below the configured minimum
+	vassume(cwnd >= a.minCwnd)                          // setCWND never leaves cwnd below the configured minimum
 	floor := mtu
 	if a.minCwnd > floor {
 		floor = a.minCwnd
